@@ -1,4 +1,5 @@
 import Pm.Daemon
+import Pm.Signal
 open Pm Pm.Client Pm.Daemon
 open Pm.Dev2 (Dev Action Stmt Plug Arg ExecCtx PState PResult ActErr RxCall Oracle Env CS getArgs connectDev)
 
@@ -30,12 +31,21 @@ partial def loop (h out : IO.FS.Stream) (w : W) : IO Unit := do
     for l in lines do out.putStrLn l
     for l in dumpLines w none do out.putStrLn l
     loop h out w
-  | "P" :: now :: acc :: con :: soe :: envs =>
-    let (w, lines) := daemonPass w { now := now.toNat!, acc := acc.toNat!, con := con.toNat!, soe := soe.toNat!, envs := envs.map parseEnv }
+  | "P" :: now :: acc :: con :: soe :: envs0 =>
+    let hup := envs0.find? (·.startsWith "H")
+    let envs := envs0.filter (!·.startsWith "H")
+    let p : PassIn := { now := now.toNat!, acc := acc.toNat!, con := con.toNat!, soe := soe.toNat!, envs := envs.map parseEnv }
+    let (w, lines) := match hup with
+      | some h => hupPass w (h.drop 1).toNat! p
+      | none => daemonPass w p
     for l in lines do out.putStrLn l
     loop h out w
-  | ["Q"] =>
-    for l in teardown w do out.putStrLn l
+  | "Q" :: rest =>
+    -- a termination signal arrives while the daemon sleeps in `poll`, together with whatever the rest of the line makes ready
+    let p : PassIn := match rest with
+      | now :: acc :: con :: soe :: envs => { now := now.toNat!, acc := acc.toNat!, con := con.toNat!, soe := soe.toNat!, envs := (envs.filter (!·.startsWith "H")).map parseEnv }
+      | _ => { now := 0, acc := 0, con := 0, soe := 0, envs := [] }
+    for l in signalPass w p do out.putStrLn l
     out.putStrLn "O teardown"
     out.putStrLn "."
     loop h out w
